@@ -14,7 +14,8 @@ import gen
 
 NSHARDS = 12
 RISKY = {"malformed_item": "riskya", "regression": "riskyb", "malformed_attr": "riskyc", "malformed_soup": "riskyd",
-         "malformed_fn": "riskye", "malformed_mod": "riskyf", "malformed_impl": "riskyg"}
+         "malformed_fn": "riskye", "malformed_mod": "riskyf", "malformed_impl": "riskyg",
+         "same_process": "sameproc"}       # not risky: one crate so that one proc-macro instance expands the whole family
 
 HEADER = "#![allow(warnings)]\n#![allow(clippy::all)]\n"
 
